@@ -38,6 +38,9 @@ var _ backoff.BackOff
 //@ invariant 2 [C16.c-integ-len] offset-len(confidentialityAlgorithms) > 3+3*int(cur(joined)[0]&1) ==> len(integrityAlgorithms) == offset-len(confidentialityAlgorithms)-(3+3*int(cur(joined)[0]&1))
 //@ invariant 2 [C16.c-integ-maximal] offset-len(confidentialityAlgorithms) < len(cur(joined)) ==> cur(joined)[offset-len(confidentialityAlgorithms)]>>6 != 1
 //@ invariant 2 [C16.conf-list] forall(qj, 0, len(confidentialityAlgorithms), cur(joined)[offset-len(confidentialityAlgorithms)+qj]>>6 == 2 && uint8(confidentialityAlgorithms[qj]) == cur(joined)[offset-len(confidentialityAlgorithms)+qj]&0x3f)
+// (the entry just appended is: suite, authentication, the current integrity algorithm, the j-th confidentiality algorithm)
+//@ invariant 4 [C16.expand-last] rangeindex >= 0 ==> records[len(records)-1].ConfidentialityAlgorithm == confidentialityAlgorithms[rangeindex] && records[len(records)-1].IntegrityAlgorithm == record.IntegrityAlgorithm &&
+//@    records[len(records)-1].CipherSuiteID == record.CipherSuiteID && records[len(records)-1].AuthenticationAlgorithm == record.AuthenticationAlgorithm && records[len(records)-1].Enterprise == record.Enterprise
 //@ invariant 4 [C16.cross-inner] len(records) == atentry(len(records)) + rangeindex + 1
 //@ invariant 3 [C16.cross-outer] len(records) == atentry(len(records)) + (rangeindex+1)*len(confidentialityAlgorithms)
 //@ ensures [C16.no-partial] result1 != nil ==> isnil(result0)
@@ -75,7 +78,7 @@ var _ backoff.BackOff
 //@    s.messageLayer.Body == c.Operation().Body && s.messageLayer.Enterprise == c.Operation().Enterprise
 //@ ensures [C18.retry] metric(commandRetries) == old(metric(commandRetries))+ite(old(firstAttempt), 0, 1)
 //@ ensures [keep.metrics] metricsOnly(commandRetries, commandResponses)
-//@ at CounterVec).WithLabelValues assert [C18.response-counted] sends() == old(sends())+1 && s.v2SessionLayer.ID == s.LocalID && s.messageLayer.Function == c.Operation().Function+1 && s.messageLayer.Command == c.Operation().Command &&
+//@ at CounterVec).WithLabelValues assert [C04+C11+C18.response-counted] sends() == old(sends())+1 && s.v2SessionLayer.ID == s.LocalID && s.messageLayer.Function == c.Operation().Function+1 && s.messageLayer.Command == c.Operation().Command &&
 //@    s.messageLayer.Body == c.Operation().Body && s.messageLayer.Enterprise == c.Operation().Enterprise // only a reply of this session to the command that was sent is counted as a response
 
 // ---- v2sessionless.go: the retry closures of session-less commands and RMCP+ payloads
@@ -93,7 +96,7 @@ var _ backoff.BackOff
 //@    s.messageLayer.Body == c.Operation().Body && s.messageLayer.Enterprise == c.Operation().Enterprise
 //@ ensures [C18.retry] metric(commandRetries) == old(metric(commandRetries))+ite(old(firstAttempt), 0, 1)
 //@ ensures [keep.metrics] metricsOnly(commandRetries, commandResponses)
-//@ at CounterVec).WithLabelValues assert [C18.response-counted] sends() == old(sends())+1 && s.messageLayer.Function == c.Operation().Function+1 && s.messageLayer.Command == c.Operation().Command &&
+//@ at CounterVec).WithLabelValues assert [C11+C18.response-counted] sends() == old(sends())+1 && s.messageLayer.Function == c.Operation().Function+1 && s.messageLayer.Command == c.Operation().Command &&
 //@    s.messageLayer.Body == c.Operation().Body && s.messageLayer.Enterprise == c.Operation().Enterprise // only a reply to the command that was sent is counted as a response
 
 //@ func (*V2Sessionless).buildAndSendPayload$1
@@ -256,7 +259,7 @@ func specRAKP4Input(st int, m1 *ipmi.RAKPMessage1, m2 *ipmi.RAKPMessage2) int {
 //@ assigns hashstate(h)
 //@ requires [hash.args] !isnil(h) && !isnil(rakpMessage1) && !isnil(rakpMessage2)
 //@ ensures [C02.rakp2-input] hIsDigest(result, old(specRAKP2Input(hState(h), rakpMessage1, rakpMessage2))) && len(result) == hSizeOf(h)
-//@ ensures [C02.rakp2-reset] hState(h) == hInit(h)
+//@ ensures [C01+C02.rakp2-reset] hState(h) == hInit(h)
 
 //@ func calculateRAKPMessage3AuthCode
 //@ props C01
@@ -270,7 +273,7 @@ func specRAKP4Input(st int, m1 *ipmi.RAKPMessage1, m2 *ipmi.RAKPMessage2) int {
 //@ assigns hashstate(h)
 //@ requires [hash.args] !isnil(h) && !isnil(rakpMessage1) && !isnil(rakpMessage2)
 //@ ensures [C02.rakp4-input] hIsDigest(result, old(specRAKP4Input(hState(h), rakpMessage1, rakpMessage2))) && len(result) == hSizeOf(h)
-//@ ensures [C02.rakp4-reset] hState(h) == hInit(h)
+//@ ensures [C01+C02.rakp4-reset] hState(h) == hInit(h)
 
 //@ func executeHash
 //@ props C01 C03
@@ -423,6 +426,9 @@ func specHMACInit(a ipmi.AuthenticationAlgorithm, key []byte) int {
 //@ props C01 C02 C12 C18
 //@ ensures [C18.frame] metricsOnly(commandAttempts, commandFailures, commandRetries, commandResponses)
 //@ requires [new.args] !isnil(s) && !isnil(s.V2Sessionless) && connValid(s.V2Sessionless) && !isnil(ctx) && !isnil(opts)
+//@ at openSession assert [C12.proposal] arg[*ipmi.OpenSessionReq](2).AuthenticationPayload.Algorithm == cipherSuite.AuthenticationAlgorithm && !arg[*ipmi.OpenSessionReq](2).AuthenticationPayload.Wildcard &&
+//@    arg[*ipmi.OpenSessionReq](2).IntegrityPayload.Algorithm == cipherSuite.IntegrityAlgorithm && !arg[*ipmi.OpenSessionReq](2).IntegrityPayload.Wildcard &&
+//@    arg[*ipmi.OpenSessionReq](2).ConfidentialityPayload.Algorithm == cipherSuite.ConfidentialityAlgorithm && !arg[*ipmi.OpenSessionReq](2).ConfidentialityPayload.Wildcard
 //@ at rakpMessage1 assert [C12.confirm] openSessionRsp.AuthenticationPayload.Algorithm == cipherSuite.AuthenticationAlgorithm && openSessionRsp.IntegrityPayload.Algorithm == cipherSuite.IntegrityAlgorithm &&
 //@    openSessionRsp.ConfidentialityPayload.Algorithm == cipherSuite.ConfidentialityAlgorithm
 //@ at rakpMessage1 assert [C01.rakp1-sent] arg[*ipmi.RAKPMessage1](2).ManagedSystemSessionID == openSessionRsp.ManagedSystemSessionID && arg[*ipmi.RAKPMessage1](2).MaxPrivilegeLevel == opts.MaxPrivilegeLevel &&
@@ -455,8 +461,8 @@ func specHMACInit(a ipmi.AuthenticationAlgorithm, key []byte) int {
 //@ ensures [C01+C02.sik-stored] result1 == nil ==> window(result0.SIK, sik, 0, len(sik))
 
 //@ func RetrieveSupportedCipherSuites
-//@ props C12 C16 C18
-//@ invariant 0 [C16.index-inv] getChannelCipherSuitesCmd.Req.ListIndex <= 64 && getChannelCipherSuitesCmd.Req.Channel == ipmi.ChannelPresentInterface
+//@ props C12 C16 C18 C05
+//@ invariant 0 [C05+C16.index-inv] getChannelCipherSuitesCmd.Req.ListIndex <= 64 && getChannelCipherSuitesCmd.Req.Channel == ipmi.ChannelPresentInterface
 //@ invariant 0 [C16.full-so-far] getChannelCipherSuitesCmd.Req.ListIndex > 0 ==> len(getChannelCipherSuitesCmd.Rsp.CipherSuiteRecordsChunk) >= 16
 //@ decreases 0 65 - int(getChannelCipherSuitesCmd.Req.ListIndex)
 //@ at V2Sessionless).SendCommand assert [C16.next-after-full] getChannelCipherSuitesCmd.Req.ListIndex > 0 ==> len(getChannelCipherSuitesCmd.Rsp.CipherSuiteRecordsChunk) >= 16
@@ -547,6 +553,7 @@ func specHMACInit(a ipmi.AuthenticationAlgorithm, key []byte) int {
 //@ at mapupdate assert [C14.record-bytes] len(getSDRCmd.Rsp.Payload) >= 43 && arg[*ipmi.FullSensorRecord](2).Number == getSDRCmd.Rsp.Payload[2] && arg[*ipmi.FullSensorRecord](2).OwnerLUN == ipmi.LUN(getSDRCmd.Rsp.Payload[1]%4) &&
 //@    arg[*ipmi.FullSensorRecord](2).Linearisation == ipmi.Linearisation(getSDRCmd.Rsp.Payload[18]%128) && arg[*ipmi.FullSensorRecord](2).AnalogDataFormat == ipmi.AnalogDataFormat(getSDRCmd.Rsp.Payload[15]/64)
 //@ at store:RecordID assert [C14.stored-before-advance] header.Type == ipmi.RecordTypeFullSensor ==> hasKey(repo, header.ID) // the walk moves on from a Full Sensor Record only once it is in the result: no record is skipped
+//@ at fmt.Errorf assert [C14.length-refusal] arg[string](0) == "SDR length %d exceeds max of %d bytes: %v" ==> header.Length > 64 // a record is refused for its length only beyond the specification's maximum
 //@ ensures [C14.complete-walk] result1 == nil ==> getSDRCmd.Req.RecordID == ipmi.RecordIDLast // a walk that succeeds has followed the chain to its end (0xFFFF), whatever the order of the IDs
 //@ ensures [C14.no-partial] result1 != nil ==> isnil(result0)
 //@ ensures [C14.fresh-result] result1 == nil ==> isnewmap(result0) // a retried walk starts from an empty map: nothing of an abandoned walk survives
